@@ -261,6 +261,8 @@ func runC13(c *Check) {
 	ruleLayerImplsSynchronised(c, "C13-R14", []*Prog{p, c.Mod(ModSingle), c.Mod(ModDA), c.Mod(ModTestapp), c.Mod(ModBased)})
 	c.MinInstances("C13-R14", 6)
 	rulePooledMemoryNotReturned(c, "C13-R15", []*Prog{p, c.Mod(ModSingle), c.Mod(ModDA), c.Mod(ModTestapp), c.Mod(ModBased)})
+	ruleWorkerEndsOnlyStoppedOrReported(c, p, "C13-R16", []string{"DAIncluderLoop", "SyncLoop", "AggregationLoop"})
+	c.MinInstances("C13-R16", 3)
 }
 
 // blockingOp classifies node n. kind == "" if it is not a blocking operation.
